@@ -470,15 +470,15 @@ Theorem pr_once_deliver_partial : forall s q' p m pr o s' e,
   outcome_of p (hd (ESent 0 0) e) = Some o.
 Proof.
   intros s q' p m pr o s' e Hq Hp Ht. unfold run_one. rewrite Hq. cbn [run_task tbl]. rewrite Hp, Ht.
-  unfold resolver.
-  destruct o as [v|f]; destruct (mres m) as [r|];
-    match goal with
-    | |- (let '(_, _) := ?call in _) = _ -> _ => pose proof (fun q => resolve_call_no_delivery src_pcfg false
-           {| tbl := tbl s; next := next s; queue := q' |} r) as Hn; destruct call as [s1 e1] eqn:Ec
-    | _ => idtac
-    end; intros H; injection H as <- <-; (split; [intros p'|cbn [hd outcome_of]; rewrite Nat.eqb_refl; reflexivity]);
-    cbn [delivered_to]; try (specialize (Hn p'); rewrite Ec in Hn; cbn [snd] in Hn; rewrite Hn);
-    destruct (Nat.eqb p p'); reflexivity.
+  assert (Hn : forall s0 r x q, delivered_to q (snd (resolver src_pcfg s0 r x)) = []).
+  { intros s0 r x q. unfold resolver. destruct r; [apply resolve_call_no_delivery|reflexivity]. }
+  destruct o as [v|f];
+    match goal with |- (let '(_, _) := ?call in _) = _ -> _ =>
+      match call with resolver _ ?s0 ?r ?x => pose proof (fun q => Hn s0 r x q) as Hn' end;
+      destruct call as [s1 e1] eqn:Ec end;
+    intros H; injection H as <- <-; cbn [snd] in Hn';
+    (split; [intros p'|cbn [hd outcome_of]; rewrite Nat.eqb_refl; reflexivity]);
+    cbn [delivered_to]; rewrite (Hn' p'); destruct (Nat.eqb p p'); reflexivity.
 Qed.
 
 (* D10, for the record: with `self._state == BROKEN` (comparison) in _break the promise stays EVENTUAL after being
